@@ -3,17 +3,18 @@ package main
 // C15 loader, C17 reload, C19 embedding API, C20 error positions.
 
 import (
-	"regexp"
 	"fmt"
 	"go/ast"
 	"go/token"
 	"go/types"
+	"os"
+	"regexp"
 	"strings"
 )
 
 func init() {
 	register(&propDef{
-		ID: "C15",
+		ID:          "C15",
 		Explanation: "LOAD-FILTER: every file name reaching rawLoadFile from rawLoadPackage passed the `_test.go` suffix filter, the call passes checkBC = true, an excluded file yields an empty tree that is skipped, the constraint evaluator's tag predicate is exactly t == \"goat\" and a file without a //go:build line is included; more than one package clause is an error. LOAD-KAHN: the skeleton of Kahn's algorithm as checkable facts — (K1) for every import token the same unquoted path is pushed on the worklist and inserted into deps[pkg]; (K2) the selection of a package is preceded, in the selection loop, by the test that its dependency set is empty; (K3) on selection the package is deleted from packages, from deps and from every remaining dependency set, and nothing else deletes from those; (K4) exactly one tree is appended to the result per iteration; (K5) compilePkgs consumes the list in order and Load/Eval pass it unchanged. LOAD-CYCLE (shared with C03's selection-drain premise): when no package is selectable the loop returns an error instead of continuing with the zero key, and the candidate list shrinks every iteration (no panic, no spin on any graph). Given K1-K5, 'each package is emitted once, after all its imports' follows by induction on the loop (the facts are what is checked, the induction is stated). Not decided: that init functions run (FUNC; CALL by inspection), vendor/shortened-path search order.",
 		Quick: []ruleDef{
 			{"LOAD-FILTER", 6, ruleLoadFilter},
@@ -24,7 +25,7 @@ func init() {
 		},
 	})
 	register(&propDef{
-		ID: "C17",
+		ID:          "C17",
 		Explanation: "RELOAD-INPLACE: from the symbolic handler summaries — GLOBALFUNC: when the global already holds a function the handler stores *through* the existing *funcT (captured function values see the new body) and does not call globals.Write, otherwise it writes the new value; GLOBALZERO assigns the zero value only under IsNil of the current value (variables declared without initialiser keep their state); GLOBALSTRUCT: an existing type is merged with syncFields and never overwritten; addMethod overwrites an existing method's funcT in place and inserts otherwise; syncFields adds every field of the new type object through addField. GLOBALSET (variables with an initialiser) always assigns. Not decided: histories of loads; instances created before a field was added.",
 		Quick: []ruleDef{
 			{"RELOAD-INPLACE", 8, ruleReloadInPlace},
@@ -32,7 +33,7 @@ func init() {
 		},
 	})
 	register(&propDef{
-		ID: "C19",
+		ID:          "C19",
 		Explanation: "API-ADAPT: sibling agreement among the six NewFunc adapters, executed with the stack length model — every N-ary adapter takes stack[len-argc:] as the argument slice, truncates the stack to len-argc before calling the native function, then appends the callee's results in order (none / one / all); the variadic adapter registers -argc and passes a[:argc-1] plus the spread data() of the last argument; the 0-ary adapters leave the arguments alone. API-ACCESSOR: each constructor/accessor pair agrees on Go type and tag and converts only between float64 and that type. PAN-ERRDROP(re-entry): inside the module no call of Func/Call/Eval/Load/run discards its error (sort comparators re-panic it, which run's guard converts). FUNC-RESULT: Func returns the top xRets entries of its private stack. Not decided: scalar round-trips over each domain (value level, exact for 32-bit ranges by construction of API-ACCESSOR).",
 		Quick: []ruleDef{
 			{"API-ADAPT", 6, ruleApiAdapt},
@@ -43,7 +44,7 @@ func init() {
 		},
 	})
 	register(&propDef{
-		ID: "C20",
+		ID:          "C20",
 		Explanation: "POS-STAMP: in compile no return leaves the big switch, so the loop that stamps un-positioned instructions with the current node's position runs for every node kind. POS-FUSED: every instruction literal built by the optimiser takes Pos from a component of its own window, and from the last one — the first component of every window is a load that cannot fail, so in unoptimised code the failing instruction (and the call instruction whose position is pushed on the backtrace) is a later component; identical reports with the optimiser on or off need the fused instruction to carry that position. FRM-PAIR (shared with C07): the backtrace push precedes the frame switch and is popped after the body. BT-ORDER: btErr reports the faulting instruction first, then the backtrace from innermost to outermost. Not decided: that positions equal Go's notion of the line; windows with two failing-capable components on different lines.",
 		Quick: []ruleDef{
 			{"POS-STAMP", 2, rulePosStamp},
@@ -229,14 +230,25 @@ func ruleApiAdapt(c *Ctx, r *R) {
 		}
 		var ev []string
 		var nativeCall *T
+		copied := "" // the term the arguments were copied into, while they still were on the stack
+		truncated := false
 		for _, e := range res[0].Eff {
 			switch e.Kind {
 			case "stack":
 				ev = append(ev, e.Value.Name)
+				if strings.Contains(e.Value.Name, "len=<+L -argc>") {
+					truncated = true
+				}
 			case "call":
 				if strings.HasPrefix(e.Value.Name, "dyn:") || strings.HasPrefix(e.Value.Name, "var.") {
 					nativeCall = e.Value
 					ev = append(ev, "NATIVE")
+				}
+				if e.Value.Name == "builtin.copy" && len(e.Value.Args) == 2 && !truncated && nativeCall == nil {
+					if dst := e.Value.Args[0]; dst.Op == "call" && dst.Name == "builtin.make" && len(dst.Args) == 2 && dst.Args[1].String() == "argc" &&
+						strings.Contains(e.Value.Args[1].String(), "view[<+L -argc>:L]") {
+						copied = dst.String()
+					}
 				}
 			}
 		}
@@ -256,10 +268,19 @@ func ruleApiAdapt(c *Ctx, r *R) {
 				for _, a := range nativeCall.Args {
 					as += a.String() + " ; "
 				}
-				if !strings.Contains(as, "view[<+L -argc>:L]") {
-					good, why = false, "the native function does not receive stack[len-argc:] as its arguments ("+as+")"
+				if os.Getenv("GOATCHECK_DEBUG") != "" {
+					fmt.Fprintln(os.Stderr, "API-ADAPT", sig, "args:", as, "events:", s)
 				}
-				if variadic && !(strings.Contains(as, "view[0:<+argc -1>]") && strings.Contains(as, "...Value.data(") && strings.Contains(as, "[<+argc -1>])")) {
+				// the native owns its arguments: it gets a copy of stack[len-argc:] made before the
+				// truncation, not a window into the live stack (which its own result and every later
+				// push overwrite)
+				switch {
+				case strings.Contains(as, "view["):
+					good, why = false, "the native function receives a window into the live operand stack as its arguments ("+as+"): a native that keeps them — NewSlice(TypeInt32, args) — sees them overwritten by its own result and by later pushes"
+				case copied == "" || !strings.Contains(as, copied):
+					good, why = false, "the native function does not receive a copy of stack[len-argc:] as its arguments ("+as+")"
+				}
+				if good && variadic && !(strings.Contains(as, copied+"[_:<+argc -1>") && strings.Contains(as, "...Value.data("+copied+"[<+argc -1>])")) {
 					good, why = false, "the variadic adapter does not pass a[:argc-1] and the spread data() of the last argument ("+as+")"
 				}
 			}
@@ -654,43 +675,43 @@ func ruleLoadFilter(c *Ctx, r *R) {
 			break
 		}
 		filtFn = hfd
-	ast.Inspect(hfd.Body, func(n ast.Node) bool {
-		rs, ok := n.(*ast.RangeStmt)
-		if !ok {
-			return true
-		}
-		for _, s := range rs.Body.List {
-			ifs, ok := s.(*ast.IfStmt)
+		ast.Inspect(hfd.Body, func(n ast.Node) bool {
+			rs, ok := n.(*ast.RangeStmt)
 			if !ok {
-				continue
+				return true
 			}
-			// positive form: if !strings.HasSuffix(f, "_test.go") { kept = append(kept, f) }
-			if u, ok := unparen(ifs.Cond).(*ast.UnaryExpr); ok && u.Op == token.NOT && ifs.Else == nil {
-				if pc, ok := unparen(u.X).(*ast.CallExpr); ok && c.CalleeName(pc) == "strings.HasSuffix" && len(pc.Args) == 2 {
-					if suf, ok := c.ConstString(pc.Args[1]); ok && suf == "_test.go" {
-						for _, bs := range ifs.Body.List {
-							if as, ok := bs.(*ast.AssignStmt); ok && len(as.Rhs) == 1 {
-								if ac, ok := unparen(as.Rhs[0]).(*ast.CallExpr); ok && c.CalleeName(ac) == "builtin.append" {
-									filt, filtLoop = ifs, rs
-									positiveKept = c.Src(as.Lhs[0])
+			for _, s := range rs.Body.List {
+				ifs, ok := s.(*ast.IfStmt)
+				if !ok {
+					continue
+				}
+				// positive form: if !strings.HasSuffix(f, "_test.go") { kept = append(kept, f) }
+				if u, ok := unparen(ifs.Cond).(*ast.UnaryExpr); ok && u.Op == token.NOT && ifs.Else == nil {
+					if pc, ok := unparen(u.X).(*ast.CallExpr); ok && c.CalleeName(pc) == "strings.HasSuffix" && len(pc.Args) == 2 {
+						if suf, ok := c.ConstString(pc.Args[1]); ok && suf == "_test.go" {
+							for _, bs := range ifs.Body.List {
+								if as, ok := bs.(*ast.AssignStmt); ok && len(as.Rhs) == 1 {
+									if ac, ok := unparen(as.Rhs[0]).(*ast.CallExpr); ok && c.CalleeName(ac) == "builtin.append" {
+										filt, filtLoop = ifs, rs
+										positiveKept = c.Src(as.Lhs[0])
+									}
 								}
 							}
 						}
 					}
 				}
-			}
-			call, ok := unparen(ifs.Cond).(*ast.CallExpr)
-			if !ok || c.CalleeName(call) != "strings.HasSuffix" || len(call.Args) != 2 {
-				continue
-			}
-			if suf, ok := c.ConstString(call.Args[1]); ok && suf == "_test.go" && len(ifs.Body.List) == 1 {
-				if br, ok := ifs.Body.List[0].(*ast.BranchStmt); ok && br.Tok == token.CONTINUE {
-					filt, filtLoop = ifs, rs
+				call, ok := unparen(ifs.Cond).(*ast.CallExpr)
+				if !ok || c.CalleeName(call) != "strings.HasSuffix" || len(call.Args) != 2 {
+					continue
+				}
+				if suf, ok := c.ConstString(call.Args[1]); ok && suf == "_test.go" && len(ifs.Body.List) == 1 {
+					if br, ok := ifs.Body.List[0].(*ast.BranchStmt); ok && br.Tok == token.CONTINUE {
+						filt, filtLoop = ifs, rs
+					}
 				}
 			}
-		}
-		return true
-	})
+			return true
+		})
 	}
 	if !r.check(filt != nil, "_test.go filter", c.Pos(fd), "files ending in _test.go are skipped", "rawLoadPackage no longer skips files ending in _test.go") {
 		return
